@@ -82,6 +82,7 @@ def gen_case(chk, i):
             s["nranks"] = r
     rng.shuffle(streams)   # creation order on disk
     return {"case": i, "looms": looms, "streams": streams, "table": rng.choice(["file", "-c", "file"]),
+            "table_blank_lines": rng.getrandbits(6) if rng.random() < 0.35 else 0,
             "empty_stream": rng.random() < 0.3}
 
 
@@ -107,6 +108,14 @@ def write_case(case, d, order=None, with_empty=False):
             seen_hosts.add(lm["host"])
             lines.append("%d %s %d %d 0.0" % (k, lm["host"], lm["off"], lm["off"]))
     args = []
+    if len(lines) > 1 and case.get("table_blank_lines"):
+        # empty lines between the entries (hand-edited or concatenated tables)
+        spaced = [lines[0]]
+        for k, l in enumerate(lines[1:]):
+            if (case["table_blank_lines"] >> k) & 1:
+                spaced.append("")
+            spaced.append(l)
+        lines = spaced + [""]
     if len(lines) > 1:
         if case["table"] == "file":
             with open(os.path.join(d, "clock-offsets.txt"), "w") as f:
